@@ -289,8 +289,8 @@ def parts(tier):
         Part('event-order', make_harness(n_ext=3, max_events=5, n_handlers=1, max_depth=3, flushes=3, allow_stop=False),
              bounds={'external_events_first_pass': 3, 'max_events': 5, 'handlers': 1, 'nesting_depth': 3, 'flushes': 3},
              encoded=ENC[:-1], budget_s=900),
-        Part('handler-order-stop', make_harness(n_ext=1, max_events=3, n_handlers=3, max_depth=1, flushes=2, allow_stop=True),
-             bounds={'external_events_first_pass': 1, 'max_events': 3, 'handlers': 3, 'nesting_depth': 1, 'flushes': 2},
+        Part('handler-order-stop', make_harness(n_ext=1, max_events=3, n_handlers=2, max_depth=1, flushes=2, allow_stop=True),
+             bounds={'external_events_first_pass': 1, 'max_events': 3, 'handlers': 2, 'nesting_depth': 1, 'flushes': 2},
              encoded=ENC, budget_s=900),
         Part('handler-stop-raise', make_harness(n_ext=2, max_events=2, n_handlers=3, max_depth=0, flushes=1, allow_stop=True, allow_raise=True),
              bounds={'external_events_first_pass': 2, 'max_events': 2, 'handlers': 3, 'nesting_depth': 0, 'flushes': 1, 'actions': 'none/stop/raise/stop+raise'},
